@@ -24,7 +24,7 @@ from vcheck import Subst, parallel
 
 NPROC = 12          # vh processes running scripts at the same time (each mostly sleeps)
 
-IMPL_INVS = ["TypeOK", "WatchersCount", "NeverEarly", "AtMostOnce", "CancelEffective", "NoLostWakeup",
+IMPL_INVS = ["TypeOK", "WatchersCount", "NeverEarly", "AtMostOnce", "CancelEffective", "NoLostWakeup", "WindDownArmed",
              "LatenessOneTick", "Conservation", "AbsInv"]
 IMPL_PROPS = ["HeapLeavers", "Restart", "Refines"]
 HEAP_INVS = ["IndexOK", "NoDup", "HeapOrder", "SetOK"]
@@ -52,9 +52,25 @@ def unit_ms(c):
 
 
 # ----------------------------------------------------------------------------- model checking
-def impl_consts(nf, delays, maxw, idle, tokcap=None, maxt=1000, keephist=True):
+def impl_consts(nf, delays, maxw, idle, tokcap=None, maxt=1000, keephist=True, variant="code"):
     return {"NF": nf, "Delays": Subst(delays), "MaxW": maxw, "IdleT": idle,
-            "TokCap": tokcap if tokcap is not None else maxw, "MaxT": maxt, "KeepHist": keephist}
+            "TokCap": tokcap if tokcap is not None else maxw, "MaxT": maxt, "KeepHist": keephist,
+            "Variant": '"%s"' % variant}
+
+
+def impl_wrong_variants(c):
+    """TLC must REJECT the wrong variants of TimerImpl.tla: the properties rest on the atomicity / notification they remove."""
+    out = {}
+    for variant, what in (("lateDecrement", "NoLostWakeup / Fires"), ("quietCancel", "WindDownArmed")):
+        cfg = c.write_cfg("timer", "wrong-" + variant, spec="FairSpec",
+                          constants=impl_consts(2, "D_n0125", 2, 1, maxt=24, keephist=False, variant=variant),
+                          invariants=["TypeOK", "NoLostWakeup", "WindDownArmed"], properties=["Fires", "WindDown"])
+        r = c.tlc("timer", "TimerMC", cfg, workers=4, timeout=900, label="wrong-" + variant, expect_ok=False, count=False)
+        out[variant] = "rejected: " + (r["error"] or "")[:160] if not r["ok"] else "ACCEPTED"
+        if r["ok"]:
+            raise vcheck.Broken("SPEC-ERROR: the wrong variant %s of TimerImpl.tla is accepted by TLC (expected a violation of %s)"
+                                % (variant, what))
+    c.extra["wrong_variants_rejected"] = out
 
 
 def impl_check(c, name, consts, emit=False, workers=6, timeout=900, coverage=False):
